@@ -402,10 +402,10 @@ prop("C20", level="exploration",
      stages=[dict(pkg="fullstack", test="TestC20", sub="concurrent", race=True, vary_gomaxprocs=True,
                   cases=dict(quick=400, thorough=6000), timeout=3600)],
      technique="runtime monitoring: 2-5 concurrent requests between one real requestor and one real responder over overlapping / disjoint DAGs with per-request speed skew (block-hook delays, link jitter, yield-point perturbation); each request's delivered nodes compared with its stand-alone reference traversal, final store checked for every loaded block; Go race detector",
-     level_text=("Classes: overlapping DAGs in the default scope, overlapping DAGs with distinct dedup keys, disjoint DAGs, overlapping DAGs whose shared blocks the "
+     level_text=("Classes: overlapping DAGs in the default scope, overlapping DAGs under one shared explicit dedup key (half of the same-scope cases with a one-worker responder), overlapping DAGs with distinct dedup keys, disjoint DAGs, overlapping DAGs whose shared blocks the "
                  "requestor already holds. The responder holds everything, so each request's stand-alone result is the full traversal of its (sub-)DAG with "
                  "no missing-block error; afterwards every block any traversal loads must be in the requestor store."),
-     level_note="Overlap in one dedup scope is a recorded known finding; the other three classes must hold.",
+     level_note="Overlap in one dedup scope while both requests are in progress on the responder is a recorded known finding (recognised from hook and wire events); everything else must hold, including same-scope requests of which one had finished before the other reached the shared block.",
      rule=("One evaluation = one set of concurrent requests. Non-trivial = all requests ran to completion and were compared; distinct by case; "
            "distinct_sets.classes = classes exercised."),
      min_nontrivial=dict(quick=150, thorough=2500),
